@@ -27,7 +27,9 @@ DocFields(g, ri) ==
   LET fs == RuleFields(g, ri) IN
   [i \in 1..Len(fs) |-> [name |-> fs[i].name, tys |-> fs[i].tys, ar |-> DocArity(g, g.rules[ri].body, fs[i].name)]]
 
-SetToSeq(S) == CHOOSE s \in [1..Cardinality(S) -> S] : \A i, j \in 1..Cardinality(S) : i # j => s[i] # s[j]
+\* some enumeration of a finite set (a CHOOSE over all functions 1..n -> S has n^n candidates)
+RECURSIVE SetToSeq(_)
+SetToSeq(S) == IF S = {} THEN <<>> ELSE LET x == CHOOSE x \in S : TRUE IN <<x>> \o SetToSeq(S \ {x})
 
 Variants(fd) == LET ts == SetToSeq(DOMAIN fd.tys) IN [i \in 1..Len(ts) |-> [t |-> ts[i], boxed |-> fd.tys[ts[i]]]]
 
